@@ -30,6 +30,25 @@ def collection_chain(ctx, v, depth=0):
                 return ads_all, ("scan", src), helpers
             v = src
             continue
+        # a vector filled by one unconditional push per iteration of a loop == collect() of that loop's iterator
+        vb = common.vec_build(P, None, v) if v[0] in ("phi", "mut") else None
+        if vb is not None and common.is_empty_vec_base(vb[0]) and len(vb[1]) == 1 and vb[1][0][0] == "push" and vb[1][0][2]:
+            pcv = vb[1][0][1]
+            pf = P.fn(pcv[1])
+            lps_ = [l for l in common.loops(P, pf) if l["is_loop"] and pf.body.edge_dominates(l["some_edge"], pcv[2])]
+            if len(lps_) == 1:
+                l_ = lps_[0]
+                lb_ = pf.body.reachable_from(l_["some_edge"][1], cut_edges=(l_["none_edge"],))
+                conds_ = [c for c in common.control_conditions(P, pf, pcv[2]) if c["sw"] in lb_ and c["sw"] != l_["switch"]]
+                conds_ = [c for c in conds_ if not (c["cond"][0] == "discr" and c["allowed"] in (["Continue"], ["Ok"]))]
+                ads, kind, src = common.iter_chain(l_["iter"])
+                ads_all += [(a, av) for a, av in ads]
+                if conds_:
+                    ads_all.append(("filter", None))     # a conditional push drops elements
+                if kind == "range" or (src[0] == "call" and isinstance(src[3], str) and re.search(r"Map::(range|range_raw|keys|keys_raw|prefix)$", generic_path(src[3]))):
+                    return ads_all, ("scan", src), helpers
+                v = src
+                continue
         if v[0] == "call" and isinstance(v[3], str) and roles.is_workspace_fn(P, v[3]):
             f = P.fn(v[3]) or P.fn(generic_path(v[3]))
             helpers.append((f, v))
@@ -361,7 +380,50 @@ def run(ctx):
                     if set(ctx.roots(v)) == {P_(ph, parr)}:
                         assigns.append(b)
         lps2 = [l for l in common.loops(P, ph) if l["is_loop"]]
-        if len(assigns) != 1 or len(lps2) != 1:
+        anys = []
+        if len(assigns) == 1 and not lps2:
+            # `if asset_infos.iter().any(|a| matches!(a, Native{denom: d} if d == &denom)) { decimals = msg }`
+            for c in common.control_conditions(P, ph, assigns[0]):
+                cd = c["cond"]
+                if cd[0] == "cmp" and cd[1] == "any" and c["allowed"] == [True]:
+                    anys.append(cd)
+        if len(assigns) == 1 and len(anys) == 1:
+            cd = anys[0]
+            ads, kind, src = common.iter_chain(cd[2][0])
+            srcr = {x for x in ctx.roots(src) if not x.startswith("M:")}
+            clo = cd[2][1]
+            okp = False
+            if clo[0] == "agg" and clo[1] == "closure" and not ads and kind in ("iter", "iter_mut") and srcr == {"%s.asset_infos" % stored}:
+                cf = P.fn(clo[2])
+                R2 = ctx.R.with_captures(clo)
+                trues = []
+                bad = False
+                for (b_, i_, cls_, v_) in common.exit_sites(P, cf):
+                    conds_ = common.control_conditions(P, cf, b_)
+                    class _C:       # cond_strings with the closure's captures resolved
+                        pass
+                    fake = type(ctx)(ctx.prop, P)
+                    fake.R = R2
+                    cs_ = lemmas.cond_strings(fake, conds_)
+                    if v_ == ("const", "int", 1):
+                        trues.append(cs_)
+                    elif v_ == ("const", "int", 0):
+                        pass
+                    elif v_[0] == "call" and common.cmp_kind(v_[3]) == "eq":
+                        # `d == &denom` returned directly under the NativeToken arm
+                        ops_ = sorted("|".join(sorted(R2.roots(a))) for a in v_[4])
+                        trues.append(cs_ | {"eq(%s) is [True]" % ", ".join(ops_)})
+                    else:
+                        bad = True
+                it = P_(cf, 1)
+                want = {"discr(%s) in ['NativeToken']" % it, "eq(%s) is [True]" % ", ".join(sorted([it + "~NativeToken.denom", P_(ph, pden)]))}
+                okp = not bad and trues == [want]
+            if not okp:
+                r5.fail("C17.R5:any-predicate", ph.path, common.span_of_block_term(ph, assigns[0]), "the decimals are applied under an `any(..)` test whose predicate is not exactly {asset is native; its denom == message denom} over the stored assets")
+            else:
+                r5.site("applied exactly when a stored native asset's denom equals the message denom")
+                r5.site("record saved after the test over both assets")
+        elif len(assigns) != 1 or len(lps2) != 1:
             r5.fail("C17.R5:assignment-shape", ph.path, ph.span, "expected one assignment of the message array inside one loop over the pair's assets: unrecognised-idiom")
         else:
             l = lps2[0]
